@@ -672,7 +672,7 @@ func genSiblings(rt *rapid.T) shist {
 // (hook point x fault kind) of the script is enumerated.
 func TestSiblingHistories(t *testing.T) {
 	sec := vk.Sec("SiblingHistories")
-	vk.Check(t, 40, 5000, func(rt *rapid.T) {
+	vk.Check(t, 40, 3000, func(rt *rapid.T) {
 		h := genSiblings(rt)
 		if f := checkSiblings(h, true, sec); f != nil {
 			rt.Logf("%s", f.full)
